@@ -155,12 +155,43 @@ def run(tier, seed, replay):
     from . import rtcommon
     rs, hs, gs = rtcommon.gen_cases(seed, "c05rt", 30 if tier == "quick" else 500, weights={"scope": 0.9, "todo": 0.0, "failing": 0.0, "decorators": 0.3},
                                     hist_len=14, kinds=["get", "get", "getctx", "getctx", "getctx", "tagged", "taggedctx", "newctx"])
+    # directed: services WITHOUT a declared scope that reach a contextual service through every kind of edge (and some that do not)
+    imp = {"services": {
+        "cx": {"constructor": "NewB", "scope": "contextual", "tags": ["tg"]},
+        "ns": {"constructor": "MakeC", "scope": "non_shared"},
+        "sh": {"constructor": "NewA", "scope": "shared"},
+        "plain": {"constructor": "NewA"},
+        "overns": {"constructor": "NewA", "arguments": ["@ns"]},
+        "mid": {"constructor": "NewA", "arguments": ["@cx"]},
+        "top": {"constructor": "NewA", "arguments": ["@mid", "@sh"]},
+        "viafield": {"constructor": "NewA", "fields": {"Dep": "@cx"}},
+        "viacall": {"constructor": "NewA", "calls": [["SetX", ["@mid"]]]},
+        "viatag": {"constructor": "NewA", "arguments": ["!tagged tg"]},
+        "viadeco": {"constructor": "NewA", "tags": ["dd"]},
+        "overdeco": {"constructor": "NewA", "arguments": ["@viadeco"]},
+        "value": {"value": "&MyStruct{}", "fields": {"Dep": "@cx"}},
+    }, "decorators": [{"tag": "dd", "decorator": "Decorate", "arguments": ["@cx"]}]}
+    import random as _rnd
+    for j in range(3 if tier == "quick" else 30):
+        rr_ = _rnd.Random("%s/c05imp/%d" % (seed, j))
+        h_ = []
+        for _ in range(40):
+            n_ = rr_.choice(list(imp["services"]))
+            h_.append(rr_.choice([{"op": "get", "name": n_}, {"op": "getctx", "ctx": rr_.randint(1, 3), "name": n_}, {"op": "getctx", "ctx": rr_.randint(1, 3), "name": n_}]))
+            if rr_.random() < 0.05:
+                h_.append({"op": "newctx", "ctx": rr_.randint(1, 3)})
+        sp_ = common.mk_spec(len(rs), [imp], keep_out=True)
+        sp_["cfg"] = imp
+        sp_["what"] = ["c05rt-implicit"]
+        rs.append(sp_)
+        hs.append(h_)
     robs, rl, ml, acc = rtcommon.run_histories(out, tooldir, env, rs, hs, "C05 instance identity", "C05")
     import re as _re
     ident = {"histories": len(acc), "shared_checked": 0, "nonshared_checked": 0, "contextual_checked": 0}
     for k in acc:
         cfg = rs[k]["cfg"]
         seen = {}
+        eff_edges = spec.Deps(cfg).svc_edges()
         for o, line in zip(hs[k], rl[k]):
             if o["op"] == "newctx":
                 # a new context under this id: what the old one held says nothing about the new one
@@ -175,6 +206,10 @@ def run(tier, seed, replay):
                 continue
             ser = m.group(1)
             sc = sv.get("scope")
+            if sc is None and not sv.get("todo"):
+                # no declared scope: contextual iff it transitively depends on a service declared contextual, shared otherwise
+                sc = "contextual" if any((cfg["services"].get(x) or {}).get("scope") == "contextual" for x in spec.reach(eff_edges, o["name"]) if x != o["name"]) else "shared"
+                ident["implicit_" + sc] = ident.get("implicit_" + sc, 0) + 1
             ctx = o.get("ctx") if o["op"] == "getctx" else None
             if sc == "shared":
                 ident["shared_checked"] += 1
